@@ -681,6 +681,8 @@ def value_attr(it, obj, attr):
     if isinstance(obj, (str, list, tuple, set, frozenset, FStr, Term, OrderVal, int, float, Fr, slice)) or obj is None:
         if isinstance(obj, slice) and attr in ("start", "stop", "step"):
             return getattr(obj, attr)
+        if isinstance(obj, (str, list, tuple, set, frozenset)) and not isinstance(obj, FStr) and not hasattr(obj, attr) and not hasattr(obj, "abs_getitem"):
+            raise Raised("AttributeError", f"'{type(obj).__name__}' object has no attribute '{attr}'")
         return BoundMethod(obj, attr)
     if isinstance(obj, (Closure,)):
         if attr == "__name__":
